@@ -151,7 +151,12 @@ fn vectors(m: &Small, mode: &Mode) -> Vec<Vec<f64>> {
 }
 
 fn run_job(job: &Job, acc: &mut Acc) {
-    let mut decoder = match guard(|| dec::factory_build(&job.name, job.m.sparse())) {
+    // half of the (implementation, matrix) pairs get the matrix through a redundant editing
+    // history (bottom-up columns, every entry re-inserted and toggled twice) instead of
+    // row-major insertion: the decoder must see the same set of positions either way
+    let redundant = (hash64(&(job.name.as_str(), &job.m.rows)) & 1) == 1;
+    let build = |m: &Small| if redundant { m.sparse_redundant() } else { m.sparse() };
+    let mut decoder = match guard(|| dec::factory_build(&job.name, build(&job.m))) {
         Ok(Ok(d)) => d,
         other => {
             acc.violate(
@@ -190,7 +195,7 @@ fn run_job(job: &Job, acc: &mut Acc) {
                 );
                 // a panic may have left the decoder in an arbitrary state
                 if res.is_err() {
-                    decoder = dec::factory_build(&job.name, job.m.sparse()).unwrap();
+                    decoder = dec::factory_build(&job.name, build(&job.m)).unwrap();
                 }
             } else if acc.evals % 250_007 == 13 {
                 let r = res.as_ref().map(dec::show).unwrap_or_default();
@@ -295,7 +300,7 @@ pub fn run(run: &Run) -> i32 {
         run,
         acc,
         Coverage {
-            rule: "36 implementation names (factory-built) x every matrix with all row weights >= 2 of the listed shapes (full power of the stated LLR alphabet) and six named matrices ({+a,-a,0}^n and every single/double substitution of a boundary value into each codeword's sign pattern) x iteration limits {0,1,2,3,10[,50]}. Alphabet: +-1, +-0, +-0.0625 (8-bit round-half boundary), +-0.0624, +-15.875 (=127/8), +-1e30, +-1e-30, +-1e-46 (flushes to 0 in f32), +-5e-324, +-3.7. Duplicate-free product; non-trivial = at least one iteration executed (sign pattern not a codeword and limit >= 1). Per-implementation counters of shortcut / success-after-iterations / failure are in counters.".into(),
+            rule: "36 implementation names (factory-built) x every matrix with all row weights >= 2 of the listed shapes (full power of the stated LLR alphabet) and six named matrices ({+a,-a,0}^n and every single/double substitution of a boundary value into each codeword's sign pattern) x iteration limits {0,1,2,3,10[,50]}. Alphabet: +-1, +-0, +-0.0625 (8-bit round-half boundary), +-0.0624, +-15.875 (=127/8), +-1e30, +-1e-30, +-1e-46 (flushes to 0 in f32), +-5e-324, +-3.7. Half of the (implementation, matrix) pairs receive the matrix through a redundant editing history (bottom-up columns, re-inserted and twice-toggled entries). Duplicate-free product; non-trivial = at least one iteration executed (sign pattern not a codeword and limit >= 1). Per-implementation counters of shortcut / success-after-iterations / failure are in counters.".into(),
             exhaustive: true,
             extra,
             graph: None,
